@@ -17,10 +17,8 @@ func NewArrayPattern(elements ...FallbackPattern) ArrayPattern {
 func (p ArrayPattern) Bind(ctx context.Context, local Scope, value Value) (context.Context, Scope, error) {
 	switch value.(type) {
 	case EmptySet:
-		if len(p.items) == 0 {
-			return ctx, EmptyScope, nil
-		}
-		return ctx, EmptyScope, fmt.Errorf("value [] is empty but pattern %s is not", p)
+		// The empty set is the empty array: optional items and ... can still match it.
+		value = Array{}
 	case GenericSet:
 		return ctx, EmptyScope, fmt.Errorf("value %s is not an array", value)
 	}
